@@ -40,6 +40,12 @@ def correspondence(ctx):
     for s_ in long_strings(ctx, std, (60 if ctx.tier == 'quick' else 3000)):
         cases.append(f'allows.id|{hexs(s_)}')
         cases.append(f'allows.ff|{hexs(s_)}')
+    # long transparent runs around ZWNJ (no bound on (T)* in RFC 5892 A.1): acceptance by both standard classes
+    for n in list(range(0, 71, 1 if ctx.tier != 'quick' else 3)) + [29, 30, 31, 32, 100, 257, 1000]:
+        run = [0x64E if k % 3 else 0x5BF for k in range(n)]
+        for lab in ([0x628] + run + [0x200C, 0x628], [0x628, 0x200C] + run + [0x628], [0x628, 0x200C] + run, run + [0x200C, 0x628]):
+            cases.append(f'allows.ff|{hexs(lab)}')
+            cases.append(f'allows.id|{hexs(lab)}')
     res = run_cases(cases, ctx.work)
 
     def nontrivial(case, impl):
